@@ -41,7 +41,9 @@ class ExprPolicy:
     """G_expr.  levels: list of allowed Expr kinds per depth (last entry repeats);
     names: identifier universe; props: member-property universe; strs: literal values."""
 
-    def __init__(self, levels, names, props, strs, max_args=(2, 1, 0), bin_ops=None, assign_ops=None, unary_ops=None, spans='concrete', spread=True, holes=True, optional_call=True):
+    def __init__(self, levels, names, props, strs, max_args=(2, 1, 0), bin_ops=None, assign_ops=None, unary_ops=None, spans='concrete', spread=True, holes=True, optional_call=True, op_budget=None, budget_kinds=('Bin', 'Tpl', 'Call', 'Assign', 'Arrow', 'OptChain', 'New', 'Unary', 'Paren', 'Array', 'Member', 'Cond', 'Seq')):
+        self.op_budget = op_budget          # max number of non-leaf expression nodes in the whole input (None = unbounded)
+        self.budget_kinds = set(budget_kinds)
         self.levels = levels
         self.names = names
         self.props = props
@@ -56,7 +58,12 @@ class ExprPolicy:
         self.optional_call = optional_call
 
     def level(self, depth):
-        return self.levels[min(depth, len(self.levels) - 1)]
+        e = depth[1] if isinstance(depth, tuple) else depth
+        return self.levels[min(e, len(self.levels) - 1)]
+
+    @staticmethod
+    def edepth(depth):
+        return depth[1] if isinstance(depth, tuple) else depth
 
     def as_policy(self):
         return {
@@ -106,11 +113,20 @@ class ExprPolicy:
                 allowed = [k for k in allowed if k != 'Seq']
             elif owner in ('ArrowExpr', 'BlockStmtOrExpr::Expr'):
                 allowed = [k for k in allowed if k not in ('Seq', 'Object')]
+            elif owner == 'Class' and f == 'super_class':
+                allowed = [k for k in allowed if k in ('Ident', 'Member', 'Call', 'Paren')]
             elif owner == 'ExprStmt':
                 allowed = [k for k in allowed if k not in ('Object', 'Fn', 'Class')]
             if owner == 'MemberExpr' and f == 'obj' and '/OptChain.base/Member' in uid:
                 # obj of an optional-chain link
                 allowed = [k for k in self.level(li.depth) if k in ('Ident', 'Member', 'Call', 'Paren', 'OptChain', 'Array', 'This')]
+            dirs = getattr(self, 'directives', None)
+            if dirs and owner == 'ExprStmt':
+                m = re.search(r'(?:\.body|\.stmts)\[(\d+)\](?:/Stmt)?/Expr\.expr$', uid)
+                if m and int(m.group(1)) < dirs and '/Block.stmts' not in uid[-40:]:
+                    return ['Lit', 'Ident']
+            if self.op_budget is not None and len(g.ctx.notes.get('ops_uids', ())) >= self.op_budget:
+                allowed = [k for k in allowed if k not in self.budget_kinds]
             if not allowed:
                 allowed = ['Ident']
             return allowed
@@ -118,6 +134,8 @@ class ExprPolicy:
             return ['Return', 'Expr']
         if enum == 'Lit':
             if uid.endswith('.obj/Lit'):
+                return ['Str']
+            if getattr(self, 'directives', None) and re.search(r'(?:\.body|\.stmts)\[\d+\](?:/Stmt)?/Expr\.expr/Lit$', uid):
                 return ['Str']
             return ['Str', 'Num', 'Null']
         if enum == 'Callee':
@@ -158,13 +176,13 @@ class ExprPolicy:
     def vec_lengths(self, g, li, elem_ty):
         role = li.role
         owner, f = role if role else (None, None)
-        d = min(li.depth, len(self.max_args) - 1)
+        d = min(self.edepth(li.depth), len(self.max_args) - 1)
         if f == 'args':
             return list(range(0, self.max_args[d] + 1))
         if owner == 'Tpl' and f == 'exprs':
-            return [1, 2] if li.depth <= 1 else [1]
+            return [1, 2] if self.edepth(li.depth) <= 1 else [1]
         if owner == 'ArrayLit':
-            return [0, 1, 2] if li.depth <= 1 else [0, 1]
+            return [0, 1, 2] if self.edepth(li.depth) <= 1 else [0, 1]
         if owner == 'SeqExpr':
             return [2]
         if owner == 'ArrowExpr' and f == 'params':
@@ -220,7 +238,14 @@ class ExprPolicy:
         ctx = g.ctx
         if head == 'Str':
             val = g.make('Atom', uid + '.value', depth, ('Str', 'value'))
-            raw = models.str_concat([StrV('"'), val, StrV('"')])
+            if getattr(self, 'quotes', None):
+                q = ctx.var('s!' + uid + '.quote', z3.StringSort())
+                if q.get_id() not in ctx.dom:
+                    ctx.set_domain(q, self.quotes)
+                    ctx.add(z3.Or([q == z3.StringVal(x) for x in self.quotes]), dom=False)
+                raw = models.str_concat([StrV(q), val, StrV(q)])
+            else:
+                raw = models.str_concat([StrV('"'), val, StrV('"')])
             return Adt('Str', None, [g.make_span(uid + '.span', None), val, models.some(raw)], None, {'uid': uid})
         if head == 'Number':
             return Adt('Number', None, [g.make_span(uid + '.span', None), 7.0, models.some(StrV('7'))], None, {'uid': uid})
@@ -256,23 +281,29 @@ class ExprPolicy:
         left = g.make('Box<Expr>', uid + '.left', depth, ('BinExpr', 'left'))
         right = g.make('Box<Expr>', uid + '.right', depth, ('BinExpr', 'right'))
         # precedence constraint with a parent BinExpr (parser realisability)
+        ops = ctx.notes.setdefault('binops', {})
+        ops[uid] = op.variant
         m = re.match(r'^(.*)\.(left|right)/Bin$', uid)
-        if m and (m.group(1) + '.op') in [k[2:] for k in ctx.vars if k.startswith('e!')]:
-            pop = ctx.vars['e!' + m.group(1) + '.op']
+        if m and m.group(1) in ops:
+            pop = ops[m.group(1)]
             cop = op.variant
-            if isinstance(cop, int):
-                cop = z3.IntVal(cop)
-            if not ctx.notes.get('prec_axioms'):
-                ctx.notes['prec_axioms'] = True
-                ctx.add(prec_axioms(), dom=False)
-            safe = z3.And(pop != EXP, pop != NULLISH, cop != EXP, cop != NULLISH, pop != IN_OP, cop != IN_OP)
-            if m.group(2) == 'left':
-                ctx.add(z3.And(safe, prec_of(cop) >= prec_of(pop)))
+            if isinstance(pop, int) and isinstance(cop, int):
+                bad = pop in (EXP, NULLISH, IN_OP) or cop in (EXP, NULLISH, IN_OP)
+                okp = BINOP_PREC[cop] >= BINOP_PREC[pop] if m.group(2) == 'left' else BINOP_PREC[cop] > BINOP_PREC[pop]
+                if bad or not okp:
+                    from interp import Infeasible
+                    raise Infeasible('operator precedence: not parser-realisable without parentheses')
             else:
-                ctx.add(z3.And(safe, prec_of(cop) > prec_of(pop)))
-        elif m:
-            # parent op is concrete (single allowed op): look it up is not possible here; be conservative
-            pass
+                if not ctx.notes.get('prec_axioms'):
+                    ctx.notes['prec_axioms'] = True
+                    ctx.add(prec_axioms(), dom=False)
+                zp = pop if not isinstance(pop, int) else z3.IntVal(pop)
+                zc = cop if not isinstance(cop, int) else z3.IntVal(cop)
+                safe = z3.And(zp != EXP, zp != NULLISH, zc != EXP, zc != NULLISH, zp != IN_OP, zc != IN_OP)
+                if m.group(2) == 'left':
+                    ctx.add(z3.And(safe, prec_of(zc) >= prec_of(zp)))
+                else:
+                    ctx.add(z3.And(safe, prec_of(zc) > prec_of(zp)))
         return Adt('BinExpr', None, [g.make_span(uid + '.span', None), op, left, right], None, {'uid': uid})
 
     def make_unary(self, g, uid, depth):
@@ -331,6 +362,8 @@ class ExprGrammar(Grammar):
         uid = li.uid
         if v.ty == 'Expr':
             vn = self.defs['Expr'].variants[v.variant][0]
+            if vn in self.ep.budget_kinds:
+                ctx.notes.setdefault('ops_uids', set()).add(uid)
             # delete needs a member operand (strict-mode parse error otherwise)
             m = re.match(r'^(.*)\.arg$', uid)
             if m and ('e!' + m.group(1) + '.op') in ctx.vars and li.role and li.role[0] == 'UnaryExpr':
@@ -421,3 +454,169 @@ def complete_tree(g, v):
     finally:
         ctx.completing = old
     return v
+
+
+# ---------------------------------------------------------------------------------------------
+# G_stmt
+
+NO_DECL_BODY = {('IfStmt', 'cons'), ('IfStmt', 'alt'), ('WhileStmt', 'body'), ('DoWhileStmt', 'body'), ('ForStmt', 'body'), ('ForInStmt', 'body'), ('ForOfStmt', 'body'), ('LabeledStmt', 'body')}
+
+
+class StmtPolicy(ExprPolicy):
+    """G_stmt: statements (per statement-nesting level) whose expression slots hold G_expr expressions.
+    stmt_levels[s] = allowed Stmt kinds at statement nesting s (1 = top-level item, 2 = inside it, ...).
+    Decl kinds are written 'Decl:Var', 'Decl:Fn', 'Decl:Class'."""
+
+    def __init__(self, stmt_levels, levels, names, props, strs, items=(1,), block_lens=(1,), directives=None, class_members=('Method', 'ClassProp', 'StaticBlock'), params=(0, 1), all_present=False, quotes=None, fn_body_lens=None, **kw):
+        self.all_present = all_present
+        self.quotes = quotes
+        self.fn_body_lens = fn_body_lens
+        ExprPolicy.__init__(self, levels, names, props, strs, **kw)
+        self.stmt_levels = stmt_levels
+        self.items = list(items)
+        self.block_lens = list(block_lens)
+        self.directives = directives     # None or list of raw strings allowed for leading directive statements
+        self.class_members = list(class_members)
+        self.params = list(params)
+
+    def slevel(self, depth):
+        s = depth[0] if isinstance(depth, tuple) else depth
+        if s - 1 >= len(self.stmt_levels):
+            return ['Expr']      # beyond the stated nesting bound: only non-recursive statements
+        return self.stmt_levels[max(s - 1, 0)]
+
+    def variants(self, g, enum, li):
+        role = li.role
+        owner, f = role if role else (None, None)
+        if enum == 'Stmt':
+            if self.directives:
+                m = re.search(r'(?:P\.body|\.body\?\.stmts)\[(\d+)\](?:/Stmt)?$', li.uid)
+                if m and int(m.group(1)) < self.directives:
+                    return ['Expr']
+            kinds = self.slevel(self.next_sdepth(li.depth))
+            out = []
+            for k in kinds:
+                k0 = k.split(':')[0]
+                if k0 == 'Decl' and (owner, f) in NO_DECL_BODY:
+                    continue
+                if k0 not in out:
+                    out.append(k0)
+            return out or ['Empty']
+        if enum == 'Decl':
+            kinds = self.slevel(li.depth)
+            out = [k.split(':')[1] for k in kinds if k.startswith('Decl:')]
+            return out or ['Var']
+        if enum == 'ModuleItem':
+            return ['Stmt']
+        if enum == 'VarDeclOrExpr':
+            return ['VarDecl', 'Expr']
+        if enum == 'ForHead':
+            return ['VarDecl', 'Pat']
+        if enum == 'ClassMember':
+            return self.class_members
+        if enum == 'MethodKind':
+            return ['Method']
+        if enum == 'Pat':
+            if owner in ('Param', 'ArrowExpr'):
+                return ['Ident', 'Assign']
+            return ['Ident']
+        if enum == 'VarDeclKind':
+            if owner == 'VarDecl' and ('.left/VarDecl' in li.uid):
+                return ['Var', 'Let', 'Const']
+            return ['Var', 'Let', 'Const']
+        return ExprPolicy.variants(self, g, enum, li)
+
+    @staticmethod
+    def next_sdepth(depth):
+        return (depth[0] + 1, 0) if isinstance(depth, tuple) else depth + 1
+
+    def vec_lengths(self, g, li, elem_ty):
+        role = li.role
+        owner, f = role if role else (None, None)
+        if owner in ('Script', 'Module'):
+            return self.items
+        if owner == 'BlockStmt':
+            if self.fn_body_lens and li.uid.endswith('.body?.stmts'):
+                return self.fn_body_lens
+            return self.block_lens
+        if owner == 'SwitchStmt':
+            return [1, 2]
+        if owner == 'SwitchCase':
+            return [1]
+        if owner == 'VarDecl':
+            return [1]
+        if owner == 'Function' and f == 'params':
+            return self.params
+        if owner in ('Function', 'Param', 'Class', 'ClassProp') and f in ('decorators', 'implements'):
+            return [0]
+        if owner == 'Class' and f == 'body':
+            return [1]
+        if owner == 'Constructor':
+            return [0]
+        return ExprPolicy.vec_lengths(self, g, li, elem_ty)
+
+    def options(self, g, li):
+        role = li.role
+        owner, f = role if role else (None, None)
+        if owner == 'IfStmt' and f == 'alt':
+            return [0, 1]
+        if self.all_present and (owner, f) in (('ForStmt', 'init'), ('ForStmt', 'test'), ('ForStmt', 'update'), ('ReturnStmt', 'arg'), ('TryStmt', 'handler'), ('TryStmt', 'finalizer'), ('CatchClause', 'param'), ('VarDeclarator', 'init'), ('ClassProp', 'value')):
+            return [1]
+        if self.all_present and (owner, f) in (('Class', 'super_class'),):
+            return [1]
+        if owner == 'ForStmt':
+            return [1, 0]
+        if owner == 'ReturnStmt':
+            return [1, 0]
+        if owner == 'TryStmt':
+            return [1, 0]
+        if owner == 'CatchClause':
+            return [1, 0]
+        if owner == 'SwitchCase' and f == 'test':
+            # at most one `default:` (only the first case may be the default in this grammar)
+            return [1, 0] if '.cases[0].' in li.uid[-16:] else [1]
+        if owner == 'VarDeclarator' and f == 'init':
+            return [1, 0]
+        if owner == 'Function' and f == 'body':
+            return [1]
+        if owner == 'Class' and f == 'super_class':
+            return [0, 1]
+        if owner == 'ClassProp' and f == 'value':
+            return [1, 0]
+        if owner in ('Script', 'Module') and f == 'shebang':
+            return [0]
+        if owner == 'FnExpr' and f == 'ident':
+            return [0, 1]
+        return ExprPolicy.options(self, g, li)
+
+    def strings(self, g, li):
+        role = li.role
+        owner, f = role if role else (None, None)
+        return ExprPolicy.strings(self, g, li)
+
+    def make(self, g, ty, uid, depth, role):
+        head, gen = parse_ty(ty)
+        if head == 'bool' and role and role[1] in ('is_await', 'type_only'):
+            return False
+        return ExprPolicy.make(self, g, ty, uid, depth, role)
+
+
+class StmtGrammar(ExprGrammar):
+    def post_force(self, v, li):
+        ExprGrammar.post_force(self, v, li)
+        ctx = self.ctx
+        uid = li.uid
+        # try needs a handler or a finalizer
+        if v.ty == 'Option' and li.role == ('TryStmt', 'finalizer'):
+            hk = 'opt:' + uid.replace('.finalizer', '.handler')
+            if v.variant == 0 and ctx.decisions.get(hk) == 0:
+                from interp import Infeasible
+                raise Infeasible('try without catch/finally')
+        # const declarations need an initialiser (outside for-in/of heads)
+        if v.ty == 'Option' and li.role == ('VarDeclarator', 'init') and v.variant == 0:
+            m = re.match(r'^(.*)\.decls\[\d+\]\.init$', uid)
+            if m and ('e!' + m.group(1) + '.kind') in ctx.vars and '.left/VarDecl' not in uid:
+                ctx.add(ctx.vars['e!' + m.group(1) + '.kind'] != 2)
+        if v.ty == 'Option' and li.role == ('VarDeclarator', 'init') and v.variant == 1 and '.left/VarDecl' in uid:
+            from interp import Infeasible
+            raise Infeasible('for-in/of head with initialiser')
